@@ -64,6 +64,7 @@ func c16Gen(t *rapid.T) C16Case {
 			r.Hdr = append(r.Hdr, HV{hACRPN, Vals(pick(t, "acrpnv", []string{"true", "true", "false", ""}))})
 		}
 		genOtherHeaders(t, &r)
+		genHostTLS(t, &r)
 		if chance(t, "target", 10) {
 			r.Target = pick(t, "targetv", []string{"*", "/a?b"})
 		}
